@@ -1,4 +1,4 @@
-import Xandikos.Theorems.C08
+import Xandikos.Theorems.C08Http
 #print axioms Xandikos.Theorems.C08.tag_eq
 #print axioms Xandikos.Theorems.C08.tag_eq_iff_contents_eq
 #print axioms Xandikos.Theorems.C08.different_members_different_tag
@@ -6,3 +6,6 @@ import Xandikos.Theorems.C08
 #print axioms Xandikos.Theorems.C08.tag_unchanged_unless_acknowledged
 #print axioms Xandikos.Theorems.C08.revert_returns_tag
 #print axioms Xandikos.Theorems.C08.reading_tag_is_pure
+#print axioms Xandikos.Theorems.C08.colls_setColl_ne
+#print axioms Xandikos.Theorems.C08.http_put_touches_one_collection
+#print axioms Xandikos.Theorems.C08.tag_unchanged_by_put_elsewhere
